@@ -16,12 +16,14 @@ func init() {
 			ID: "C02", Title: "Best-path and ECMP selection do not depend on arrival order", Level: "proof",
 			Technique:   "comparator lexicographic-normal-form check on the typed AST (sufficient condition: total preorder), ECMP-key ⊆ decision-key check, type-agreement gate, must-pass-through PathSelection on go/cfg",
 			DesignRef:   "DESIGN.md §3 R-CMP, §4 C02",
-			Decided:     "(1) Path.Select, BGPPath.Select, StaticPath.Select, FIBPath.Select and net.IP.Compare are in lexicographic normal form (every step two mirrored tests on a key of one operand, no step under a guard, final return 0 / mirrored tail call) — by the theorem in engine/core/cmp.go the preference relation is then a total preorder, antisymmetric in sign, with ties exactly between paths equal on all decision keys, so the sorted order of equivalence classes is a function of the set of paths; (2) every key of BGPPath.ECMP / FIBPath.ECMP is a decision key of the corresponding Select, so the counted leading run cannot depend on the order of tied paths; (3) Path.ECMP/Select/Compare/Equal establish p.Type == q.Type before handing q's type-specific part to a type-specific method; (4) in LocRIB.AddPath/RemovePath/ReplacePath every path from the table mutation to propagateChanges passes PathSelection, and the less-function of PathSelection is `Select(i,j) == 1`.",
+			Decided:     "(1) Path.Select, BGPPath.Select, StaticPath.Select, FIBPath.Select and net.IP.Compare are in lexicographic normal form (every step two mirrored tests on a key of one operand, no step under a guard, final return 0 / mirrored tail call) — by the theorem in engine/core/cmp.go the preference relation is then a total preorder, antisymmetric in sign, with ties exactly between paths equal on all decision keys, so the sorted order of equivalence classes is a function of the set of paths; (2) every key of BGPPath.ECMP / FIBPath.ECMP is a decision key of the corresponding Select, so the counted leading run cannot depend on the order of tied paths; (3) Path.ECMP/Select/Compare/Equal establish p.Type == q.Type before handing q's type-specific part to a type-specific method; (4) in LocRIB.AddPath/RemovePath/ReplacePath every path from the table mutation to propagateChanges passes PathSelection, and the less-function of PathSelection is `Select(i,j) == 1`; (5) the identity relation behind removals (Path.Compare/Equal and everything they reach): every elementwise comparison loop is covered by a test that both sequences have the same length (dominating the loop, conjoined in the later returns, or dominating every call site of a helper taking both sequences), so a sequence that is a proper prefix of another is never \"the same path\".",
 			NotDecided:  "correctness of sort.Slice (trusted); that attribute values are what the wire carried.",
 			TrustedBase: append([]string{"theorem: a comparator in lexicographic normal form is a total preorder (proof in engine/core/cmp.go)", "sort.Slice sorts correctly for a strict weak order"}, stdTrusted...),
 		},
 		Run: runC02,
 		Controls: []Control{
+			{Name: "cluster-list-equality-without-length", File: "route/bgp_path.go", Old: "\tif len(*b.ClusterList) != len(*c.ClusterList) {\n\t\treturn false\n\t}\n", New: "", Expect: "identity-compares-whole-sequences"},
+			{Name: "refactor-equality-length-checked-last", Silent: true, File: "route/bgp_path.go", Old: "\tif len(*b.ClusterList) != len(*c.ClusterList) {\n\t\treturn false\n\t}\n\n\tfor i := range *b.ClusterList {\n\t\tif (*b.ClusterList)[i] != (*c.ClusterList)[i] {\n\t\t\treturn false\n\t\t}\n\t}\n\n\treturn true\n", New: "\tfor i := range *b.ClusterList {\n\t\tif i >= len(*c.ClusterList) || (*b.ClusterList)[i] != (*c.ClusterList)[i] {\n\t\t\treturn false\n\t\t}\n\t}\n\n\treturn len(*b.ClusterList) == len(*c.ClusterList)\n"},
 			{Name: "select-guard-over-both-operands", File: "route/bgp_path.go", Old: "\tif c.BGPPathA.MED > b.BGPPathA.MED {\n\t\treturn 1\n\t}\n\n\tif c.BGPPathA.MED < b.BGPPathA.MED {\n\t\treturn -1\n\t}\n\n\t// d)", New: "\tif c.BGPPathA.MED != 0 && b.BGPPathA.MED != 0 {\n\tif c.BGPPathA.MED > b.BGPPathA.MED {\n\t\treturn 1\n\t}\n\n\tif c.BGPPathA.MED < b.BGPPathA.MED {\n\t\treturn -1\n\t}\n\t}\n\n\t// d)", Expect: "cmp-normal-form"},
 			{Name: "select-one-sided", File: "route/bgp_path.go", Old: "\tif c.BGPPathA.Origin < b.BGPPathA.Origin {\n\t\treturn -1\n\t}\n\n\t// c)", New: "\t// c)", Expect: "cmp-normal-form"},
 			{Name: "ecmp-key-outside-select", File: "route/bgp_path.go", Old: "b.BGPPathA.Origin == c.BGPPathA.Origin\n}", New: "b.BGPPathA.Origin == c.BGPPathA.Origin && b.BGPPathA.AtomicAggregate == c.BGPPathA.AtomicAggregate\n}", Expect: "ecmp-keys-are-decision-keys"},
@@ -79,6 +81,7 @@ func analyseComparators(c *core.Ctx) *cmpSet {
 
 func runC02(c *core.Ctx) {
 	p := c.P
+	identityEquality(c)
 	cs := analyseComparators(c)
 	c.Floor("cmp-normal-form", 20)
 	for _, k := range sortedKeys(cs.forms) {
@@ -192,6 +195,12 @@ func runC02(c *core.Ctx) {
 		c.Check(n >= 2, "type-agreement-before-dispatch", k+" dispatch sites found", f.Decl.Pos(), "expected at least two type-specific dispatch sites")
 	}
 
+	selectionBeforePropagation(c, "selection-before-propagation", 3)
+}
+
+// selectionBeforePropagation: every Loc-RIB mutation is followed by PathSelection before clients are told (shared by C02 and C03).
+func selectionBeforePropagation(c *core.Ctx, rule string, floor int) {
+	p := c.P
 	// (4) selection before propagation in the Loc-RIB
 	sel := p.Func("route.(*Route).PathSelection")
 	prop := p.Func("routingtable/locRIB.(*LocRIB).propagateChanges")
@@ -200,7 +209,7 @@ func runC02(c *core.Ctx) {
 		return
 	}
 	muts := core.KeyIs("routingtable.(*RoutingTable).AddPath", "routingtable.(*RoutingTable).RemovePath", "routingtable.(*RoutingTable).ReplacePath", "routingtable.(*RoutingTable).RemovePfx", "route.(*Route).ReplacePath", "route.(*Route).AddPath", "route.(*Route).RemovePath")
-	c.Floor("selection-before-propagation", 3)
+	c.Floor(rule, floor)
 	for _, f := range p.MethodsOf("routingtable/locRIB", "LocRIB") {
 		if f.Decl.Body == nil {
 			continue
@@ -223,14 +232,14 @@ func runC02(c *core.Ctx) {
 		isProp := hasCall(func(o *types.Func) bool { return o == prop.Obj })
 		bad, started := core.PathAvoidingFromS(g, hasCall(muts), isSel, isProp)
 		if !started {
-			c.Undecided("selection-before-propagation", f.Name(), f.Decl.Pos(), "table mutation not found in the control-flow graph")
+			c.Undecided(rule, f.Name(), f.Decl.Pos(), "table mutation not found in the control-flow graph")
 			continue
 		}
 		var at token.Pos = f.Decl.Pos()
 		if len(bad) > 0 {
 			at = bad[0].Pos()
 		}
-		c.Check(len(bad) == 0, "selection-before-propagation", f.Name(), at, "a path from the table mutation to propagateChanges does not pass Route.PathSelection: clients would be told about an unsorted path list")
+		c.Check(len(bad) == 0, rule, f.Name(), at, "a path from the table mutation to propagateChanges does not pass Route.PathSelection: clients would be told about an unsorted path list")
 		// the new-route argument, if it is a local copy, must be taken after selection
 		for _, call := range core.Calls(f.Pkg, f.Decl.Body, func(o *types.Func) bool { return o == prop.Obj }) {
 			if len(call.Args) != 2 {
@@ -247,7 +256,7 @@ func runC02(c *core.Ctx) {
 				}
 				isThis := func(n ast.Node) bool { return core.NodeHas(n, func(x ast.Node) bool { return x == ast.Node(dc) }) }
 				bad := core.PathAvoidingFrom(g, hasCall(muts), isSel, isThis)
-				c.Check(len(bad) == 0, "selection-before-propagation", f.Name()+" new-route copy", dc.Pos(), "the copy of the route handed to clients as the NEW state is taken before PathSelection ran")
+				c.Check(len(bad) == 0, rule, f.Name()+" new-route copy", dc.Pos(), "the copy of the route handed to clients as the NEW state is taken before PathSelection ran")
 			}
 		}
 	}
@@ -295,8 +304,8 @@ func runC02(c *core.Ctx) {
 		}
 		return true
 	})
-	c.Check(ok, "selection-before-propagation", "route.(*Route).PathSelection less is Select(i,j)==1", lessPos, "PathSelection's less function is not `paths[i].Select(paths[j]) == 1`")
-	c.Check(len(core.Calls(sel.Pkg, sel.Decl.Body, core.KeyIs("route.(*Route).updateEqualPathCount"))) == 1, "selection-before-propagation", "route.(*Route).PathSelection recounts ECMP", sel.Decl.Pos(), "PathSelection does not recompute the equal-cost path count after sorting")
+	c.Check(ok, rule, "route.(*Route).PathSelection less is Select(i,j)==1", lessPos, "PathSelection's less function is not `paths[i].Select(paths[j]) == 1`")
+	c.Check(len(core.Calls(sel.Pkg, sel.Decl.Body, core.KeyIs("route.(*Route).updateEqualPathCount"))) == 1, rule, "route.(*Route).PathSelection recounts ECMP", sel.Decl.Pos(), "PathSelection does not recompute the equal-cost path count after sorting")
 }
 
 type ecmpKey struct {
